@@ -293,3 +293,12 @@ class debug_logging:
         for name, lvl in self.saved.items():
             logging.getLogger(name).setLevel(lvl)
         return False
+
+
+def np_allocator(nbytes):
+    """A user-supplied buffer allocator handing out numpy arrays (the documented `allocator=` pass-through)."""
+    return np.zeros(nbytes, dtype=np.uint8)
+
+
+def with_allocator(kw, on):
+    return dict(kw, allocator=np_allocator) if on else kw
